@@ -117,7 +117,7 @@ pub fn prop() -> Prop {
         gen,
         check,
         panic_is_violation: false,
-        budget: (150_000, 4_000_000),
+        budget: (900000, 24000000),
         extra: None,
         required: &["wrapped_paragraph", "empty_side", "multi_paragraph_side", "empty_indent_equals_wrap_b"],
         known: None,
